@@ -18,17 +18,18 @@ import (
 )
 
 type checkCtx struct {
-	V        *Verifier
-	prop     string
-	tier     string
-	seed     int
-	obs      []*Obligation
-	funcs    map[string]bool
-	notes    []string
-	bounded  []map[string]string
-	cfg      *solveCfg
-	t0       time.Time
-	encCache map[string]*EncInfo
+	V         *Verifier
+	prop      string
+	tier      string
+	seed      int
+	obs       []*Obligation
+	funcs     map[string]bool
+	notes     []string
+	bounded   []map[string]string
+	cfg       *solveCfg
+	t0        time.Time
+	encCache  map[string]*EncInfo
+	didTables bool
 }
 
 var unsignedTs = []string{"uint8", "uint16", "uint32", "uint64"}
@@ -427,6 +428,7 @@ func (c *checkCtx) guard(fn, what string, f func() []*Obligation) (obs []*Obliga
 }
 
 func (c *checkCtx) tablesTask() {
+	c.didTables = true
 	var paths []string
 	for path := range c.V.pkgs {
 		if c.V.inRepo(path) && strings.HasSuffix(path, "/messages") {
@@ -602,7 +604,33 @@ func (c *checkCtx) plan() bool {
 	default:
 		return false
 	}
+	// Whole-package accounting (aux.go) for every property about messages or the library: the discriminator
+	// tables and their look-up functions (which the message layer uses through a summary), the exact shape of the
+	// registration functions, empty tables before init, and purity of everything that has neither a contract nor
+	// a verified caller (constructors, String(), methods of new types).
+	switch c.prop {
+	case "C14", "C19":
+	default:
+		if !c.didTables {
+			c.tablesTask()
+		}
+		c.auxTask()
+	}
 	return true
+}
+
+func (c *checkCtx) auxTask() {
+	var paths []string
+	for path := range c.V.pkgs {
+		if c.V.inRepo(path) && (strings.HasSuffix(path, "/messages") || strings.HasSuffix(path, "/codec")) {
+			paths = append(paths, path)
+		}
+	}
+	sort.Strings(paths)
+	for _, path := range paths {
+		path := path
+		c.obs = append(c.obs, c.guard(path, "accounting", func() []*Obligation { return c.V.AuxCheck(path, []string{c.prop}) })...)
+	}
 }
 
 func (c *checkCtx) extractAllTables() {
